@@ -100,6 +100,11 @@ def gather_states(tier, run, budget=None, extra_models=True):
             if m not in seen:
                 res.append((m, tr, 'path-routes', ('imports', 'ns', 'routes', 'unions'), 3))
         run.bounds['path_route_models'] = len(prm)
+        tan = profiles.tree_across_namespaces_models()
+        for m, tr in tan:
+            if m not in seen:
+                res.append((m, tr, 'tree-across-namespaces', ('aliases', 'imports', 'inherit', 'subtypes', 'ns', 'routes', 'unions', 'wrappers', 'defaults'), 3))
+        run.bounds['tree_across_namespaces_models'] = len(tan)
     return res
 
 
